@@ -354,9 +354,11 @@ class C07:
         except Exception as e:
             if "outside-graphtage" in core.graphtage_site(e):
                 raise
+            # the comparison fails without any cancellation: that failure is some other property's business, but
+            # "never alters the trees it was given" still applies to a comparison that raises
             log.add("purity-ref-failed", core.graphtage_site(e))
             counters["purity_reference_failed"] = counters.get("purity_reference_failed", 0) + 1
-            return   # fails without any cancellation: some other property's business
+            ref_text = None
         def compare(a, b):
             if ps["mode"] == "diff":
                 a.diff(b)
@@ -430,6 +432,8 @@ class C07:
             diff = next(((a, b) for a, b in zip(fp0[0] + fp0[1], fp1[0] + fp1[1]) if a != b), None)
             raise Violation("tree-altered", f"{ps['mode']}/{outcome.split(':')[0]}",
                             f"the {side} input tree changed during a {outcome} comparison: {diff}")
+        if ref_text is None:
+            return
         hygiene()
         SEAMS.clock.configure("frozen")
         try:
